@@ -230,6 +230,8 @@ func execSteps(w *world.World, s *world.Session, b *world.Broker, steps []Step) 
 				s.Stop()
 			case "broker-close":
 				s.BrokerClose()
+			case "broker-reset":
+				s.BrokerReset()
 			case "broker-garbage":
 				s.MQSend([]byte{0xf0, 0x02, 0x00, 0x00}) // reserved packet type 15
 			case "broker-illegal":
